@@ -375,7 +375,8 @@ VARIANTS += [
     F("C04", "previous-replacement-keeps-t", PYG, 'body = re.sub(pattern_t, ",t-self.dt)", body)', 'body = re.sub(pattern_t, ",t)", body)', "PREV/previous"),
     F("C04", "non-negative-wrap-removed", XML, "                        elem[\"equation_parsed\"] = {\"name\": 'max', \"type\": 'call',\n                                                   \"args\": [0, deepcopy(elem[\"equation_parsed\"])]}", "                        pass", "NONNEG/parse_xmile/wrap"),
     F("C04", "lerp-high-clamp-first-y", JIN, "    if x >= x_vals[len(x_vals)-1]:\n        return y_vals[len(x_vals)-1]\n\n    f = interp1d(x_vals, y_vals)\n    return float(f(x))\n\nclass simulation_model", "    if x >= x_vals[len(x_vals)-1]:\n        return y_vals[0]\n\n    f = interp1d(x_vals, y_vals)\n    return float(f(x))\n\nclass simulation_model", "SIBLING/LERP/high-clamp"),
-    F("C04", "generated-memo-raw-keys", JIN, "        if isinstance(arg, float):\n            arg = round(arg, 10)\n", "", "TIME/jinja:simulation_model.memoize"),
+    F("C04", "generated-memo-raw-keys", JIN, "            if abs(arg - grid_point) < 1e-9:\n                arg = grid_point\n", "            pass\n", "TIME/jinja:simulation_model.memoize/key="),
+    F("C04", "generated-memo-decimal-rounding", JIN, "            grid_point = self.starttime + round((arg - self.starttime) / self.dt) * self.dt\n            if abs(arg - grid_point) < 1e-9:\n                arg = grid_point\n", "            arg = round(arg, 10)\n", "TIME/jinja:simulation_model.memoize/not-grid-relative"),
     F("C04", "outflows-added", STX, "                        {\"name\": '-', \"type\": 'operator', \"args\": [\n                            inflows,", "                        {\"name\": '+', \"type\": 'operator', \"args\": [\n                            inflows,", "EULER/StockExpressions/net-both"),
     F("C04", "dt-from-stop", JIN, "        self.dt = {{specs.dt}}", "        self.dt = {{specs.stop}}", "TIME/jinja:__init__/dt"),
     S("C04", "literal-key-order", STX, "                expression = {\"name\": 'IF', \"type\": 'call', \"args\": [", "                expression = {\"type\": 'call', \"name\": 'IF', \"args\": ["),
